@@ -62,7 +62,10 @@ def answerPca (fs : List (String × String)) : String :=
       let Ymodel := DMat.ofFn (embedRows P.get mu.get X.get)
       let ymax := maxAbsM Ymodel.get
       let pmaxv := maxAbsM P.get
-      let cy := cmpMat Y.get Ymodel.get (εtight * xscale * (if pmaxv < 1 then 1 else pmaxv) * ((D : Rat) + 1))
+      --   (rounding of Pᵀ(x − mean) is relative to the spread |x − mean|, not to |x|: the centring must come first)
+      let spread0 := maxAbsM (fun (i : Fin N) (a : Fin D) => X.get i a - mu.get a)
+      let spread := if spread0 == 0 then xscale else spread0
+      let cy := cmpMat Y.get Ymodel.get (εtight * spread * (if pmaxv < 1 then 1 else pmaxv) * ((D : Rat) + 1))
       -- 7. uncorrelated columns with variances lam: (1/N) YᵀY = diag lam, column means 0
       let YD := Y
       let covY : Mat d d Rat := fun a b => sumFin N (fun i => YD.get i a * YD.get i b) / (N : Rat)
